@@ -463,6 +463,7 @@ Proof.
   - inversion H. change s' with (fst (s', out)). rewrite <- H1. apply do_poison_inv1; auto.
   - inversion H. change s' with (fst (s', out)). rewrite <- H1. apply do_cksf_inv1; auto.
   - inversion H. change s' with (fst (s', out)). rewrite <- H1. destruct DR as [DR|[]]. apply do_relf_inv1; auto.
+  - inversion H; subst; auto.
   - inversion H. change s' with (fst (s', out)). rewrite <- H1. apply do_crash_inv1; auto.
   - inversion H. change s' with (fst (s', out)). rewrite <- H1. apply do_relstop_inv1; auto.
 Qed.
@@ -1255,6 +1256,7 @@ Proof.
   - inversion H. change s' with (fst (s', out)). rewrite <- H1. apply do_poison_inv2; auto.
   - inversion H. change s' with (fst (s', out)). rewrite <- H1. apply do_cksf_inv2; auto.
   - inversion H. change s' with (fst (s', out)). rewrite <- H1. destruct DR as [DR|[]]. apply do_relf_inv2; auto.
+  - inversion H; subst; auto.
   - inversion H. change s' with (fst (s', out)). rewrite <- H1. apply do_crash_inv2; auto.
   - inversion H. change s' with (fst (s', out)). rewrite <- H1. apply do_relstop_inv2; auto.
 Qed.
